@@ -34,12 +34,22 @@ CLAIMED = {
  "C06": dict(engine="e4-asm", design="4/C06",
    text="The structural predicate (fields < M, entry point inside the code, length <= maximum, defined enum values; under ICWS'88 an independent legality table with the implied modifier) is evaluated on every input that assembles among the C03 and C08 spaces and targeted grids around every range check (ORG/END k around the length in 5 spellings, lengths around the maximum written out and through FOR, all opcode x modifier x 9 x 10 mode combinations under ICWS'88, extreme literals).",
    technique="bounded exhaustive input enumeration + invariant (predicate) on every accepted output"),
+ "C09": dict(engine="e5-loadfiles", design="4/C09",
+   text="Every instruction form legal in each dialect as a one-instruction warrior (field values {0,1,M-1,M/2,M/2+1}, three spellings, four core sizes), all 2..3-instruction warriors over a 12-form alphabet with every entry point, and every set of <=2 layout perturbations of representative files are printed canonically and read back by both ParseLoadFile and CompileWarrior; both must return exactly the warrior.",
+   technique="bounded exhaustive enumeration of warriors x deviation-bounded layout perturbations, round-trip oracle"),
+ "C10": dict(engine="e5-loadfiles", design="4/C10",
+   text="Every single and double corruption (field deletion/duplication/transposition, 14 replacement numbers, bad mnemonics and modes, 14 directive insertions at every boundary, truncation at every byte, missing final newline) of 10 canonical files per dialect: the loader returns without panic with an error, or a well-formed warrior whose length equals the number of instruction-candidate lines before the end marker as classified by an independent line classifier.",
+   technique="exhaustive fault (corruption) enumeration up to 2 deviations with an independent line-classifier oracle"),
+ "C16": dict(engine="e5-loadfiles", design="4/C16",
+   text="For each dialect every legal instruction form x every field pair for M in 3..9 and boundary fields for M in {80,8000,8192}, plus all 2..3-instruction warriors with every entry point, are printed with Warrior.LoadCode() and read back by an independent pMARS-listing reader; instructions (fields mod M) and entry point must match.",
+   technique="exhaustive enumeration of warriors, print/read-back against an independent listing reader"),
 }
 
 PENDING = {
 }
 
 ENGINES = [
+ {"name": "e5-loadfiles", "path": "/verif/mc/engines/e5", "serves_properties": ["C09", "C10", "C16"], "kind_free_text": "canonical load-file printer, layout perturbation and corruption enumerators, listing reader"},
  {"name": "e4-asm", "path": "/verif/mc/engines/e4", "serves_properties": ["C03", "C06", "C07", "C08"], "kind_free_text": "grammar-directed exhaustive generation of assembler inputs with by-construction meaning"},
  {"name": "e2-battles", "path": "/verif/mc/engines/e2", "serves_properties": ["C02", "C12", "C04", "C15"], "kind_free_text": "explicit-state enumeration of whole battles against the reference scheduler; placement differential; configuration boundary product"},
  {"name": "e1-stepspace", "path": "/verif/mc/engines/e1", "serves_properties": ["C01", "C11", "C04", "C15"], "kind_free_text": "explicit-state enumeration of single-step states against the reference step"},
